@@ -13,7 +13,7 @@ pub const C10_BLOCKS: &[&str] = &[
     "ComplexToMag2", "NrziDecode", "Descrambler", "CorrelateAccessCode", "CorrelateAccessCodeTag",
     "Map<u32,u8>", "Tee<u8>", "Add<f32>", "Xor<u8>", "FloatToComplex", "BurstTagger<u32>", "Skip<u32>",
     "Delay<u32>", "RationalResampler<u32>", "RtlSdrDecode", "StreamToPdu<u8>", "VecToStream<u8>",
-    "ToText<u32>", "VectorSource<u32>",
+    "ToText<u32>", "VectorSource<u32>", "ConstantSource<u32>", "FftStream", "VectorSink<f32>", "NullSink<f32>",
 ];
 
 #[derive(Clone, Copy, PartialEq, Debug)]
@@ -462,6 +462,14 @@ pub fn run_case(c: &Case, mode: Mode, rep: &mut Report) -> Vec<Finding> {
             }
         }
         Mode::C10 => {
+            if e.name == "NullSink<f32>" && !r.dead {
+                // "discard anything written": everything fed must have been consumed
+                rep.count("spec_comparisons", 1);
+                let left = r.in_buffered(0);
+                if left != 0 || r.dut.ins[0].pending() != 0 {
+                    findings.push(Finding { class: "chunked-output-differs-from-spec".into(), detail: format!("NullSink left {left} samples unconsumed; {}", describe(&r)) });
+                }
+            }
             if let Some(spec) = spec_out.as_ref().filter(|_| C10_BLOCKS.contains(&e.name)) {
                 rep.count("spec_comparisons", 1);
                 rep.count("samples_compared", spec.iter().map(|d| d.len() as u64).sum());
@@ -471,6 +479,38 @@ pub fn run_case(c: &Case, mode: Mode, rep: &mut Report) -> Vec<Finding> {
                         continue;
                     }
                     for o in 0..spec.len() {
+                        if e.name == "ConstantSource<u32>" {
+                            // every emitted sample equals the configured value
+                            if let (Data::U32(got), Data::U32(want)) = (&outs[o], &spec[o]) {
+                                if got.is_empty() || got.iter().any(|x| *x != want[0]) {
+                                    findings.push(Finding { class: format!("{which}-output-differs-from-spec"), detail: format!("ConstantSource emitted {} samples, not all equal to {}; {}", got.len(), want[0], describe(&r)) });
+                                }
+                            }
+                            continue;
+                        }
+                        if e.name == "FftStream" {
+                            // f32 FFT against the f64 DFT: |err| <= 64*u*log2(2N)*|x_block|_2 per element
+                            if let (Data::C32(got), Data::C32(want), Data::C32(inp)) = (&outs[o], &spec[o], &inputs[0]) {
+                                let size = params["size"].as_u64().unwrap_or(1) as usize;
+                                let mut bad = got.len() != want.len();
+                                if !bad {
+                                    for (k, (g, w)) in got.iter().zip(want.iter()).enumerate() {
+                                        let b = k / size;
+                                        let norm: f64 = inp[b * size..(b + 1) * size].iter().map(|x| x.norm_sqr() as f64).sum::<f64>().sqrt();
+                                        let bound = 64.0 * 5.96e-8 * ((2 * size) as f64).log2() * norm + 1e-30;
+                                        let err = ((g.re as f64 - w.re as f64).powi(2) + (g.im as f64 - w.im as f64).powi(2)).sqrt();
+                                        if !(err <= bound) {
+                                            bad = true;
+                                            break;
+                                        }
+                                    }
+                                }
+                                if bad {
+                                    findings.push(Finding { class: format!("{which}-output-differs-from-spec"), detail: format!("FftStream: {} outputs vs {} expected (whole blocks of {size}, each the forward DFT of its input block); {}", got.len(), want.len(), describe(&r)) });
+                                }
+                            }
+                            continue;
+                        }
                         if !within_ulps(&outs[o], &spec[o], spec_ulps) {
                             let at = outs[o].first_diff(&spec[o]).unwrap_or(0);
                             // Delay with empty input: zeros may legitimately not be flushed.
